@@ -49,6 +49,7 @@ structure World where
   codes : List Code
   doms : List Nat          -- owner of each HTTP domain mapping
   noExec : Bool := false   -- configuration: no CommandExecutor installed (`handleCommandPacket` falls back to `handleDefaultCommand`)
+  xnode : Bool := false    -- configuration: connection-state store + cross-node pool + cross-node listener on every node
   bridge : Bool := false   -- a BridgeManager (message broker) joins the nodes; storage is shared by all nodes
 deriving DecidableEq, Repr
 
@@ -318,6 +319,12 @@ def Run.okResp (view : List Obj) (chg : List Chg) (dlv : List Dlv) : Run := ⟨t
 def dnsErr (w : World) (f : Nat) : Run :=
   if isCtl w f then ⟨true, .fail, [], [], [], []⟩ else Run.err
 
+/-- the request is pushed to connection `tc` (parsed fields only, `json.Marshal(req)`, locally and across nodes) and the
+target's answer relayed to the sender — which needs the sender's control connection -/
+def dnsFwd (w : World) (f : Nat) (q : Bool) (tc : Nat) : Run :=
+  if isCtl w f then ⟨true, .ok, [], [], [⟨tc, if q then c11.cmd.DNSQuery else c11.cmd.DNSResolve, none⟩], []⟩
+  else ⟨false, .none, [], [], [⟨tc, if q then c11.cmd.DNSQuery else c11.cmd.DNSResolve, none⟩], []⟩
+
 def execH (v : Variant) (h : Handler) (w : World) (f : Nat) (c : Cmd) : Run :=
   let id := ident w f
   match h with
@@ -353,10 +360,15 @@ def execH (v : Variant) (h : Handler) (w : World) (f : Nat) (c : Cmd) : Run :=
     | none => dnsErr w f
     | some t =>
       match online w (nodeOf w f) t with
-      | none => dnsErr w f
-      | some tc =>
-        if isCtl w f then ⟨true, .ok, [], [], [⟨tc, if q then c11.cmd.DNSQuery else c11.cmd.DNSResolve, none⟩], []⟩
-        else ⟨false, .none, [], [], [⟨tc, if q then c11.cmd.DNSQuery else c11.cmd.DNSResolve, none⟩], []⟩
+      | some tc => dnsFwd w f q tc
+      | none =>
+        -- `handleDNSQueryCrossNode` (raw queries only): the node the shared store names for the client gets the request
+        -- over the cross-node pool; its listener pushes it to the client's control connection there
+        if q && w.xnode then
+          match (nodes w).filterMap (fun n => if n == nodeOf w f then none else online w n t) with
+          | tc :: _ => dnsFwd w f q tc
+          | [] => dnsErr w f
+        else dnsErr w f
   | .disconnect => if isCtl w f then ⟨true, .none, [], [], [], [f]⟩ else Run.quiet
   | .stubOneway => Run.quiet
   | .notifyAck => Run.quiet
